@@ -59,3 +59,91 @@ def transform_dynmat_to_fc_safety():
 
 def all_contracts():
     return [dynmat_at_q_safety(), transform_dynmat_to_fc_safety()]
+
+
+# ------------------------------------------------------------------ tetrahedron DOS kernels (c/phonopy.c)
+from pvc.spec import RecSum, monotone_lemma     # noqa: E402
+
+PF = "c/phonopy.c"
+
+
+def _mesh_req(V):
+    m = V.a.mesh
+    return [m[0] >= 1, m[1] >= 1, m[2] >= 1, V.p.num_gp == m[0] * m[1] * m[2]]
+
+
+def tetrahedron_dos_safety(run_sink):
+    """call site: phonopy/phonon/dos.py run_tetrahedron_method_dos: mesh (3), grid_address (num_gp, 3), relative_grid_address
+    (24, 4, 3), grid_mapping_table (num_gp) with table[i] <= i, table[table[i]] == table[i] (spglib), frequencies (num_ir, num_band),
+    coef (num_ir, num_coef, num_band), dos (num_ir, num_band, num_freq_points, num_coef), num_ir == number of fixed points."""
+    from contracts import c_rgrid as RG
+
+    def cnt(V):
+        tab = V.a.grid_mapping_table
+        return RecSum("n_fixed", [], lambda i: z3.If(tab[i] == i, z3.IntVal(1), z3.IntVal(0)), sort=z3.IntSort())
+
+    def req(V):
+        ng, nir = V.p.num_gp, V.p.num_ir_gp
+        tab = V.a.grid_mapping_table
+        return _mesh_req(V) + [nir >= 1, V.p.num_band >= 0, V.p.num_freq_points >= 0, V.p.num_coef >= 0,
+                               z3.ForAll([i_], z3.Implies(z3.And(i_ >= 0, i_ < ng), z3.And(tab[i_] >= 0, tab[i_] <= i_, tab[tab[i_]] == tab[i_]))),
+                               cnt(V)(ng) == nir]
+
+    def inv0(V):
+        ng, nir = V.p.num_gp, V.p.num_ir_gp
+        i, count = V.v.i, V.v.count
+        c = cnt(V.old)
+        return [("range", z3.And(i >= 0, i <= ng)), ("count", count == c(i)), ("count-range", z3.And(count >= 0, count <= nir)),
+                ("gp2ir", z3.ForAll([k_], z3.Implies(z3.And(k_ >= 0, k_ < i), z3.And(V.a.gp2ir[k_] >= 0, V.a.gp2ir[k_] < count)))),
+                ("irgp", z3.ForAll([k_], z3.Implies(z3.And(k_ >= 0, k_ < count), z3.And(V.a.ir_grid_points[k_] >= 0, V.a.ir_grid_points[k_] < ng))))]
+
+    def unfold0(V):
+        c = cnt(V.old)
+        return [c.zero(), c.unfold(V.v.i), c.unfold(V.v.i - 1), MONO["fact"]]
+    MONO = {}
+    l_, q_ = z3.Ints("l_ q_")
+
+    def irgps_ok(V, cond):
+        # the 24 x 4 vertex table of this grid point (loops kept symbolic instead of being unrolled 96 times)
+        return z3.ForAll([l_, q_], z3.Implies(z3.And(l_ >= 0, l_ < 24, q_ >= 0, q_ < 4, cond(l_, q_)),
+                                              z3.And(V.a.ir_gps[l_, q_] >= 0, V.a.ir_gps[l_, q_] < V.p.num_ir_gp)))
+
+    def inv_l(V):
+        return [("range", z3.And(V.v.l >= 0, V.v.l <= 24)), ("ir_gps", irgps_ok(V, lambda a, b: a < V.v.l))]
+
+    def inv_q(V):
+        return [("range", z3.And(V.v.q >= 0, V.v.q <= 4, V.v.l >= 0, V.v.l < 24)),
+                ("ir_gps", irgps_ok(V, lambda a, b: z3.Or(a < V.v.l, z3.And(a == V.v.l, b < V.v.q))))]
+
+    def derived(V):
+        # monotonicity of the fixed-point count (induction lemma) -> count never exceeds num_ir_gp
+        MONO["fact"] = monotone_lemma(run_sink, PF + ":phpy_tetrahedron_method_dos[safety]", cnt(V), V.p.num_gp)
+        return []
+
+    def facts(V):
+        return [MONO["fact"]]
+    mm, sm = RG.mat_modulo_contract(), RG.single_mesh_contract()
+    reg = {"rgd_get_double_grid_address": RG.double_grid_address_contract(), "rgd_get_double_grid_index": _rgd_index_contract(),
+           "thm_get_integration_weight": Contract("c/tetrahedron_method.c", "thm_get_integration_weight",
+                                                  shapes={"tetrahedra_omegas": lambda P: [24, 4]}, requires=lambda V: [], ensures=lambda V: [])}
+    c = Contract(PF, "phpy_tetrahedron_method_dos", tag="[safety]",
+                 shapes={"dos": lambda P: [P.num_ir_gp, P.num_band, P.num_freq_points, P.num_coef], "mesh": lambda P: [3],
+                         "grid_address": lambda P: [P.num_gp, 3], "relative_grid_address": lambda P: [24, 4, 3],
+                         "grid_mapping_table": lambda P: [P.num_gp], "freq_points": lambda P: [P.num_freq_points],
+                         "frequencies": lambda P: [P.num_ir_gp, P.num_band], "coef": lambda P: [P.num_ir_gp, P.num_coef, P.num_band]},
+                 local_shapes={"gp2ir": lambda V: [V.p.num_gp], "ir_grid_points": lambda V: [V.p.num_ir_gp], "weights": lambda V: [V.p.num_ir_gp]},
+                 requires=req, modifies=("dos",), derived=derived, auto_range=True, race=True,
+                 loops={0: LoopSpec(inv0, unfold=unfold0), 2: LoopSpec(inv_l), 3: LoopSpec(inv_q),
+                        6: LoopSpec(lambda V: [("range", z3.And(V.v.l >= 0, V.v.l <= 24))]),
+                        7: LoopSpec(lambda V: [("range", z3.And(V.v.q >= 0, V.v.q <= 4, V.v.l >= 0, V.v.l < 24))])},
+                 use_contracts={"rgd_get_double_grid_address", "rgd_get_double_grid_index", "thm_get_integration_weight"})
+    return c, reg
+
+
+def _rgd_index_contract():
+    from contracts import c_rgrid as RG
+    c = RG.double_grid_index_contract()
+    import copy
+    c2 = copy.copy(c)
+    c2.func = "rgd_get_double_grid_index"
+    return c2
